@@ -84,8 +84,9 @@ fn types_case<V: Sample>(is_async: bool, ignore: bool, rng: &mut Rng, rep: &mut 
             }
         }
         item_size_seen = Some(snap.item_size);
-        if snap.item_size <= std::mem::size_of::<V>() {
-            rep.violate("C16", "overhead/smaller-than-value", format!("internal overhead {} for a value of {} bytes", snap.item_size, std::mem::size_of::<V>()), desc.clone());
+        // (how large the fixed overhead is - in particular whether the value is stored inline - is not part of the statement)
+        if snap.item_size == 0 {
+            rep.violate("C16", "overhead/zero", "internal overhead reported as 0".into(), desc.clone());
         }
         let overhead = if ignore { 0 } else { snap.item_size as i64 };
         let charged: std::collections::HashMap<u64, i64> = snap.costs.iter().cloned().collect();
